@@ -67,7 +67,7 @@ def _make_graph_game(rng, backend, max_states):
         xs = None if rng.random() < 0.7 else rng.randrange(nx)
         return [(y in ys) and (xs is None or x == xs)
                 for (c, x, y) in ar.states()]
-    P = [subset(rng.choice([1, 2])) for _ in range(nP)]
+    P = [subset(rng.choice([1, 2, max(1, ny - 1)])) for _ in range(nP)]
     R = [subset(rng.choice([1, 1, 2])) for _ in range(nR)]
     return dict(decl=decl, backend=backend, E=E, S=S, P=P, R=R, ar=ar)
 
